@@ -4,6 +4,7 @@ From Coq Require Import Extraction ExtrOcamlBasic.
 From KV Require Import Bytes WalCodec Memtable Engine.
 From KV Require Import ReadOnly.
 From KV Require Import ApiView.
+From KV Require Import Iter Service.
 Extraction Language OCaml.
 Set Extraction Output Directory ".".
 Separate Extraction
@@ -17,4 +18,7 @@ Separate Extraction
   Engine.init Engine.put Engine.del Engine.apply_batch Engine.tx_commit Engine.get Engine.flush
   Engine.reopen Engine.run Engine.buffer_ops
   ReadOnly.start ReadOnly.step_client ReadOnly.step_repl ReadOnly.node_get ReadOnly.tx_get
-  ReadOnly.node_scan ReadOnly.node_info ReadOnly.rw_open ReadOnly.any_open ApiView.api_view.
+  ReadOnly.node_scan ReadOnly.node_info ReadOnly.rw_open ReadOnly.any_open ApiView.api_view
+  Iter.eng_it Iter.eng_range_it Iter.tx_it Iter.tx_range_it Iter.eng_iter Iter.tx_full Iter.tx_range
+  Iter.filtered_iter Iter.prefix_filter Iter.suffix_filter Iter.scan Iter.collect Iter.eng_sources
+  Service.service_step Service.sstep Service.srun Service.sinit Service.code_limits Service.req_size.
